@@ -1,3 +1,4 @@
+mod attack;
 mod capi;
 mod driver;
 mod exec;
